@@ -3,7 +3,7 @@
 import ctypes
 import os
 
-KINDS = {"eio": 1, "enospc": 2, "short": 3, "kill_before": 4, "kill_after": 5}
+KINDS = {"eio": 1, "enospc": 2, "short": 3, "kill_before": 4, "kill_after": 5, "kill_mid": 6}
 
 _LIB = None
 _CHECKED = False
@@ -56,7 +56,7 @@ def fired():
 
 def call_log():
     """List of (call, file, size, offset): call in p(write) w(rite) s(ync)
-    t(runcate) u(nlink); file in d(atabase) j(ournal) o(ther)."""
+    t(runcate) u(nlink) r(ename) c(opy: sendfile / copy_file_range); file in d(atabase) j(ournal) o(ther)."""
     out = []
     buf = ctypes.create_string_buffer(96)
     handle = lib()
